@@ -6,7 +6,10 @@ use crate::engine::Suite;
 pub mod c01;
 pub mod c06;
 pub mod c08;
+pub mod c10;
+pub mod c15;
 pub mod c18;
+pub mod guards;
 pub mod swapf;
 
 pub struct Property {
@@ -21,6 +24,8 @@ pub fn all() -> Vec<Property> {
         Property { id: "C01", rule: c01::RULE, assumptions: c01::ASSUMPTIONS, suites: c01::suites() },
         Property { id: "C06", rule: c06::RULE, assumptions: c06::ASSUMPTIONS, suites: c06::suites() },
         Property { id: "C08", rule: c08::RULE, assumptions: c08::ASSUMPTIONS, suites: c08::suites() },
+        Property { id: "C10", rule: c10::RULE, assumptions: c10::ASSUMPTIONS, suites: c10::suites() },
+        Property { id: "C15", rule: c15::RULE, assumptions: c15::ASSUMPTIONS, suites: c15::suites() },
         Property { id: "C18", rule: c18::RULE, assumptions: c18::ASSUMPTIONS, suites: c18::suites() },
     ]
 }
